@@ -29,7 +29,13 @@ def main():
     opt = dict(zip(args[2::2], args[3::2]))
     maxn, jobs, seed = int(opt.get("--max", 0)), int(opt.get("--jobs", 4)), int(opt.get("--seed", 1))
     src = open(os.path.join(REPO, rel), "rb").read()
-    rc, out = sh([os.path.join(ROOT, "build", "mutate"), os.path.join(REPO, rel)])
+    mutate = os.path.join(ROOT, "build", "mutate")
+    if not os.path.exists(mutate):
+        os.makedirs(os.path.dirname(mutate), exist_ok=True)
+        rc, out = sh(["go", "build", "-o", mutate, "."], cwd=os.path.join(ROOT, "tools", "mutate"))
+        if rc != 0:
+            sys.exit("cannot build tools/mutate: " + out)
+    rc, out = sh([mutate, os.path.join(REPO, rel)])
     muts = [json.loads(l) for l in out.splitlines() if l.startswith("{")]
     # de-duplicate identical replacements
     seen, uniq = set(), []
